@@ -319,8 +319,11 @@ def gen_meta(r, k, T):
         w = r.choice([0.5, 1.0])
         nx = r.randint(6, 12)
         lo = V.dyadic(r, -4, -1, bits=2) if nice else r.choice([-3.123456789, -2.0 / 3.0 - 2])
-        cfg += cv_block(i, width=w, lower=lo, upper=lo + nx * w)
-        M["vars"].append({"w": w, "lower": lo, "upper": lo + nx * w, "nx": nx, "sigma": w * hw / 2.0})
+        expand = use_grids and nice and r.random() < 0.25
+        cfg += cv_block(i, width=w, lower=lo, upper=lo + nx * w, extra=["expandBoundaries on"] if expand else [])
+        M["vars"].append({"w": w, "lower": lo, "upper": lo + nx * w, "nx": nx, "sigma": w * hw / 2.0, "expand": expand})
+        if expand and "expandBoundaries" not in tags:
+            tags.append("expandBoundaries")
     if not nice:
         tags.append("long-decimal-boundaries")
     freq = r.choice([1, 2, 3])
@@ -424,4 +427,12 @@ def gen_eabf(r, k, T):
             "pos": pos, "ef": forces(r, T, 1), "show_tf": True, "tf_lagged": True}
 
 
-FAMILIES = {"histrestraint": gen_histrestraint, "eabf": gen_eabf, "opes": gen_opes, "restraint": gen_restraint, "histogram": gen_histogram, "extlag": gen_extlag, "abmd": gen_abmd, "alb": gen_alb, "abf": gen_abf, "meta": gen_meta}
+# ------------------------------------------------------------------------------------------------ analysis windows
+def gen_runave(r, k, T):
+    L = r.choice([2, 3, 4])
+    cfg = cv_block(0, width=1.0, extra=["runAve on", "runAveLength %d" % L])
+    return {"fam": "runave", "tags": ["runAve", "length=%d" % L], "sigtags": [], "collapse": "all", "natoms": 1, "config": cfg,
+            "it0": 0, "pos": walk(r, T, 1, lo=-4, hi=4, bits=3), "prefix_per_run": True}
+
+
+FAMILIES = {"runave": gen_runave, "histrestraint": gen_histrestraint, "eabf": gen_eabf, "opes": gen_opes, "restraint": gen_restraint, "histogram": gen_histogram, "extlag": gen_extlag, "abmd": gen_abmd, "alb": gen_alb, "abf": gen_abf, "meta": gen_meta}
